@@ -151,6 +151,9 @@ MayRejectValue(e, p, M) ==
   \/ e.call \in TracerCalls         \* geometric validity and box violations of interpolated segments
 
 Rejected(e) == e.out # "ok"
+\* a registered user hook that rewrites F / S (recorder flag `sh`): whether the call is accepted then depends on the hook's
+\* result, not on the request -- the clauses about REASONS for rejection do not apply; the emitted words still must be in bounds
+HookAlters(e) == e.sh /\ e.call \in MotionCalls
 
 -----------------------------------------------------------------------------
 (* C01 -- the emitted program reproduces the tracked position               *)
@@ -178,7 +181,7 @@ C02_Raises(e, p, m, m2, M) ==
      \/ e.out \in {"ToolStateError", "CoolantStateError"}
      \/ e.out = "ValueError" /\ MayRejectValue(e, p, M)
 C02_OnlyDoc(e, p, m, m2, M) ==
-  Rejected(e) /\ e.call \notin TracerCalls =>
+  Rejected(e) /\ e.call \notin TracerCalls /\ ~HookAlters(e) =>
      \/ e.out = "ToolStateError"    /\ e.call \in ToolGuarded /\ p.tool
      \/ e.out = "CoolantStateError" /\ e.call \in CoolGuarded /\ p.coolact
      \/ e.out = "ValueError"        /\ MayRejectValue(e, p, M)
@@ -210,7 +213,7 @@ LineInBounds(mb, ma, ws, b, M) ==
 C03_Words(e, p, m, m2, M) ==
   LET ms == PrefixStates(m, e.lines) IN
   \A i \in DOMAIN e.lines : LineInBounds(ms[i], ms[i + 1], e.lines[i].ws, p.bounds, M)
-C03_Reject_Ante(e, p, m, m2, M) == e.call \notin TracerCalls /\ e.call # "set_bounds" /\ MustRejectValue(e, p, M)
+C03_Reject_Ante(e, p, m, m2, M) == e.call \notin TracerCalls /\ e.call # "set_bounds" /\ ~HookAlters(e) /\ MustRejectValue(e, p, M)
 C03_Reject(e, p, m, m2, M) == C03_Reject_Ante(e, p, m, m2, M) => Rejected(e)
 C03_NaN(e, p, m, m2, M) ==
   (\/ IsNaN(e.a.val) \/ IsNaN(e.a.F) \/ IsNaN(e.a.S) \/ IsNaN(e.a.R) \/ \E i \in 1..3 : IsNaN(e.a.ax[i]))
